@@ -548,6 +548,129 @@ impl<K1: Clone + Eq + Hash, K2: Copy + Eq + Hash, V: PartialEq> PartitionedCache
     }
 }
 
+/// Verification hook: read-only inspection of the cache.
+#[cfg(feature = "resolved_verif")]
+#[derive(Debug, Clone)]
+pub struct VerifSnapshot {
+    /// Every held entry: name, type, data, expiry.
+    pub entries: Vec<(DomainName, RecordType, RecordTypeWithData, Instant)>,
+    /// Per name: `last_read`, `next_expiry`, `size`.
+    pub partitions: Vec<(DomainName, Instant, Instant, usize)>,
+    pub current_size: usize,
+    pub desired_size: usize,
+    /// Violations of the documented structural invariants (empty if none).
+    pub problems: Vec<String>,
+}
+
+#[cfg(feature = "resolved_verif")]
+impl SharedCache {
+    /// Take a snapshot under the cache's own mutex.  Does not touch any
+    /// access time.
+    ///
+    /// # Panics
+    ///
+    /// If the mutex has been poisoned.
+    pub fn verif_snapshot(&self) -> VerifSnapshot {
+        self.cache
+            .lock()
+            .expect(MUTEX_POISON_MESSAGE)
+            .verif_snapshot()
+    }
+}
+
+#[cfg(feature = "resolved_verif")]
+impl Cache {
+    /// Dump the contents and check the structural invariants.  Read-only.
+    pub fn verif_snapshot(&self) -> VerifSnapshot {
+        let inner = &self.inner;
+        let mut entries = Vec::new();
+        let mut partitions = Vec::new();
+        let mut problems = Vec::new();
+        let mut total = 0;
+
+        for (name, partition) in &inner.partitions {
+            let mut size = 0;
+            let mut min_expiry = None;
+            for (rtype, tuples) in &partition.records {
+                size += tuples.len();
+                for (i, (value, expiry)) in tuples.iter().enumerate() {
+                    if value.rtype() != *rtype {
+                        problems.push(format!("{name}: {} stored under {rtype}", value.rtype()));
+                    }
+                    if tuples[..i].iter().any(|(v, _)| v == value) {
+                        problems.push(format!("{name} {rtype}: duplicate entry"));
+                    }
+                    match min_expiry {
+                        Some(m) if m <= *expiry => (),
+                        _ => min_expiry = Some(*expiry),
+                    }
+                    entries.push((name.clone(), *rtype, value.clone(), *expiry));
+                }
+            }
+            total += size;
+            if size != partition.size {
+                problems.push(format!(
+                    "{name}: size field {} but {size} entries",
+                    partition.size
+                ));
+            }
+            if size == 0 {
+                problems.push(format!("{name}: empty partition kept"));
+            }
+            if let Some(m) = min_expiry {
+                if m != partition.next_expiry {
+                    problems.push(format!("{name}: next_expiry is not the minimum expiry"));
+                }
+            }
+            match inner.access_priority.get_priority(name) {
+                Some(Reverse(t)) if *t == partition.last_read => (),
+                Some(_) => problems.push(format!("{name}: access priority != last_read")),
+                None => problems.push(format!("{name}: missing from access queue")),
+            }
+            match inner.expiry_priority.get_priority(name) {
+                Some(Reverse(t)) if *t == partition.next_expiry => (),
+                Some(_) => problems.push(format!("{name}: expiry priority != next_expiry")),
+                None => problems.push(format!("{name}: missing from expiry queue")),
+            }
+            partitions.push((
+                name.clone(),
+                partition.last_read,
+                partition.next_expiry,
+                partition.size,
+            ));
+        }
+
+        if total != inner.current_size {
+            problems.push(format!(
+                "current_size {} but {total} entries",
+                inner.current_size
+            ));
+        }
+        if inner.access_priority.len() != inner.partitions.len() {
+            problems.push(format!(
+                "access queue has {} keys, {} partitions",
+                inner.access_priority.len(),
+                inner.partitions.len()
+            ));
+        }
+        if inner.expiry_priority.len() != inner.partitions.len() {
+            problems.push(format!(
+                "expiry queue has {} keys, {} partitions",
+                inner.expiry_priority.len(),
+                inner.partitions.len()
+            ));
+        }
+
+        VerifSnapshot {
+            entries,
+            partitions,
+            current_size: inner.current_size,
+            desired_size: inner.desired_size,
+            problems,
+        }
+    }
+}
+
 /// Verification hook: a controllable clock for the cache.  The five functions
 /// in this module which call `Instant::now()` import this `Instant` in their
 /// body when the feature is on; it returns a real `std::time::Instant` equal to
